@@ -2,6 +2,8 @@
 
 package gomatrixserverlib
 
+import "fmt"
+
 // Verification hooks for property C03 (add-only, build tag "verif"; injected with
 // go build -overlay, never written into the repository).
 
@@ -21,3 +23,19 @@ func VerifC03CheckContentHash(eventJSON []byte) error { return checkEventContent
 
 // VerifC03EventHashFromEventID exposes eventHashFromEventID.
 func VerifC03EventHashFromEventID(id string) []byte { return eventHashFromEventID(id) }
+
+// VerifC03EventValue renders the whole value of an event struct (every field, exported or not,
+// slices by content), so that two renderings taken before and after a sequence of read-only
+// accessor calls show whether an accessor wrote to the event.
+func VerifC03EventValue(e PDU) string {
+	switch v := e.(type) {
+	case *eventV3:
+		return fmt.Sprintf("eventV3%#v", *v)
+	case *eventV2:
+		return fmt.Sprintf("eventV2%#v", *v)
+	case *eventV1:
+		return fmt.Sprintf("eventV1%#v", *v)
+	default:
+		return fmt.Sprintf("%T", e)
+	}
+}
